@@ -5,7 +5,8 @@ LEVEL = "proof"
 RULE = ('all (input, Pretext) pairs of the C01 streams on which remapping completes, with forward and reverse input contigs, 1-bp contigs, cut contigs, any piece orientations. Non-trivial = distinct (kind, cuts, breaks, joins, #assemblies).')
 TRUSTED = ['correspondence harness props/C11.py + remap_lib.py: real BuildAssembly pipeline vs Lean `remap` on the projection `proj_stats`', 'modelled not verified: Python dict/set/sort semantics as in Model/Py.lean; object identity by object ids; PretextView edit-script model (spec side)']
 ASSUMPTIONS = ["no unknown-strand ('?') input contigs (junction_tuple rejects them)"]
-EXPLANATION = 'junction-tuple canonicity/injectivity theorems + cut counter lemma; tie by correspondence on the statistics; oracle = independent adjacency count.'
+EXPLANATION = 'junction-tuple canonicity/injectivity theorems, make_stats = set differences of adjacencies, and the end-to-end cut equation `remap_cuts_count` (cuts = #output fragments − #input contigs, per contig k pieces add k−1) over the model; tie by correspondence on the statistics; oracle = independent adjacency count.'
+LEVEL_NOTE = 'all three counts proved over the model: breaks/joins = sizes of the two set differences of unordered contig-end adjacencies (`make_stats_counts_adjacencies`, reversal-invariant), cuts end to end (`remap_cuts_count`, `remap_cuts_per_contig`, under `WFInput`: needed, `remap_cuts_count_needs_wf`); the haplotig-removal count is CLI glue (oracle side, CLI end-to-end stream); ' + '; '.join(TRUSTED)
 PROJ = R.proj_stats
 
 
